@@ -26,7 +26,7 @@ ASSUMPTIONS = [
     "bucket values are compared exactly with the reference prediction after casting to float64 (uint16 images are exact in float32/float64)",
 ]
 COMPONENTS = {"real": ["pyxel observation / parameter modes / evaluator / load_table", "dask get_async", "xarray", "filesystem (scratch dir)"], "stub": ["thread pool"]}
-BUDGET = {"quick": {"n": 320, "wall": 100, "determinism": 4}, "thorough": {"n": 20000, "wall": 1500, "determinism": 12}}
+BUDGET = {"quick": {"n": 320, "wall": 100, "determinism": 4}, "thorough": {"n": 40000, "wall": 1500, "determinism": 12}}
 REQUIRED_REACH = ["rerun_after_reconfiguration", "mode:product", "mode:sequential", "mode:custom", "path:par", "path:seq", "vector_param", "disabled_param", "numpy_expr", "colliding_names", "custom_file:txt", "custom_file:npy"]
 
 
